@@ -50,7 +50,7 @@ GFail == /\ phase' = "failed" /\ out' = [NoOut EXCEPT !.exit = 1]
 
 ReadYaml ==
   /\ phase = "start"
-  /\ IF C.fault \in {"missingfile", "malformed"} THEN GFail
+  /\ IF C.fault \in {"missingfile", "malformed", "mistypedlist", "mistypedbool", "mistypedmap"} THEN GFail
      ELSE phase' = "yaml" /\ UNCHANGED <<rq, cursor, messages, warned, processing, out, log>>
 
 ReadCLI == phase = "yaml" /\ phase' = "cli" /\ UNCHANGED <<rq, cursor, messages, warned, processing, out, log>>
